@@ -78,6 +78,12 @@ Theorem euclid_packed_is_textbook : forall u v : list R, length u = length v ->
     euclid (pack R 0 u) (pack R 0 v) = sqrt (r_sqdist u v).
 Proof. exact euclid_packed_same_len. Qed.
 
+(* vectors of different lengths: the textbook sum over the common packed prefix of the zero-extended vectors
+   (zpadR u = u ++ zeros up to the packed length; r_sqdist stops at the shorter argument) *)
+Theorem euclid_packed_on_common_prefix : forall u v : list R,
+    euclid (pack R 0 u) (pack R 0 v) = sqrt (r_sqdist (zpadR u) (zpadR v)).
+Proof. exact euclid_packed_general. Qed.
+
 Theorem cosine_packed_is_textbook : forall u v : list R, length u = length v ->
     cosine (pack R 0 u) (pack R 0 v) = r_dot u v / (sqrt (r_norm2 u) * sqrt (r_norm2 v)).
 Proof. exact cosine_packed_same_len. Qed.
